@@ -1,4 +1,5 @@
 import Uom.Model.Text
+import Uom.Proofs.BodyEq.Text
 /-!
 # C11 — formatting prints the value in the requested unit with the right label
 
@@ -60,5 +61,39 @@ theorem debug_segments (v : Bytes) (abbrs : List Bytes) (dim : List Int) :
 /-- non-vacuity: `1 m^1 s^-2` -/
 example : fmtDebug [0x31] [[0x6d], [0x6b, 0x67], [0x73]] [1, 0, -2] =
     [0x31, 0x20, 0x6d, 0x5e, 0x31, 0x20, 0x73, 0x5e, 0x2d, 0x32] := by decide +kernel
+
+/-! ### tie to the source: the `fmt` impls regenerated from /repo/src/system.rs on this run
+
+`Gen.RxBody.system_style_for_QuantityArguments_fmt` (the body shared by the eight flavours of
+`format_arguments!`) and `system_Debug_for_Quantity_fmt` are what the translator read from the Rust source
+just now; `Rx.run` evaluates them (`?`, `write!`, the style `match`, the `.and_then` repetition over the base
+quantities natively; the storage type's own formatting, `is_one`, `from_base` and the labels are parameters). -/
+section SourceTieRx
+open Uom.Rx Uom.Gen.RxBody Uom.BodyEq.Text
+
+/-- the source writes exactly `fmtArgs`: the storage type's formatting of the *converted* value, one space,
+    abbreviation / singular iff the converted value is one / plural -/
+theorem src_quantity_arguments_fmt {V : Type} (fromB : V → V) (fmtV : V → Bytes) (isOne : V → Bool) (u : Labels)
+    (style : Style) (x : V) :
+    run (envFmt fromB (fun v => some (fmtV v)) isOne u) system_style_for_QuantityArguments_fmt
+        [.host (.qa style x), .fmtr] =
+      (.val (.ctor1 cOk .unit), fmtV (fromB x) ++ [0x20] ++ label u style (isOne (fromB x))) :=
+  quantity_arguments_fmt_eq fromB fmtV isOne u style x
+
+/-- a formatting error of the value is returned and nothing else is written -/
+theorem src_quantity_arguments_fmt_err {V : Type} (fromB : V → V) (fmtV : V → Option Bytes) (isOne : V → Bool)
+    (u : Labels) (style : Style) (x : V) (h : fmtV (fromB x) = none) :
+    run (envFmt fromB fmtV isOne u) system_style_for_QuantityArguments_fmt [.host (.qa style x), .fmtr] =
+      (.val (.ctor1 cErr .unit), []) := quantity_arguments_fmt_err fromB fmtV isOne u style x h
+
+/-- the source's `Debug for Quantity` writes `fmtDebug`, for any number of base quantities -/
+theorem src_debug_fmt {V : Type} (dbg : V → Bytes) (abbrs : List Bytes) (dim : List Int)
+    (h : abbrs.length = dim.length) (x : V) :
+    run (envDebug (fun v => some (dbg v)) abbrs dim) system_Debug_for_Quantity_fmt [.host (.quant x), .fmtr] =
+      (.val (.ctor1 cOk .unit),
+        dbg x ++ (((abbrs.zip dim).filter (fun p => p.2 ≠ 0)).map fun p => [0x20] ++ p.1 ++ [0x5e] ++ intBytes p.2).flatten) := by
+  rw [debug_fmt_eq dbg abbrs dim h x, debug_segments]
+
+end SourceTieRx
 
 end Uom.C11
